@@ -91,6 +91,12 @@ class Gen:
                                 for op in ("+", "*", "/") + (("-", "//", "%") if "moreops" in P else ()):
                                     yield (promote(t1, t2, op), f"({a} {op} {b})")
                                 yield ("bool", f"({a} > {b})")
+                    if t1 in NUM and "numbool" in P:
+                        # and / or of two numbers: the property says and/or give bool
+                        for t2, b in self.gen(ctx, n2):
+                            if t2 == t1:
+                                yield ("bool", f"({a} and {b})")
+                                yield ("bool", f"({a} or {b})")
                     if t1 == "bool":
                         for t2, b in self.gen(ctx, n2):
                             if t2 == "bool":
@@ -163,7 +169,7 @@ def type_problem(lib, want, g):
     return f"unknown expected type {want!r}"
 
 
-FULL = ("const", "len", "neg", "not", "selectmany", "dict", "ifexp", "anyattr", "anyarith")
+FULL = ("const", "len", "neg", "not", "selectmany", "dict", "ifexp", "anyattr", "anyarith", "numbool")
 OPS = ("const", "moreops")
 
 
@@ -210,6 +216,12 @@ class C08(Check):
                                  {"shape": "Info(...) with every split into positional / keyword arguments and every order "
                                   "of the keywords, then field access in the same lambda or in the next operator"},
                                  self._ctors, runner="run_chain"))
+            if mname in ("plain", "generic"):
+                out.append(Space(f"{mname}: metadata operators between stages",
+                                 {"inserted": "QMetaData({a:1}) twice (the second adds nothing new), QMetaData({}), MetaData({m:1}) after "
+                                  "every stage", "stages": "1..2", "body_size": 3},
+                                 (lambda mname=mname: [(m_, st, "md") for m_, st in self._chains(mname, 3, 2)] +
+                                  [(m_, st, "md") for m_, st in self._single(mname, 3)]), runner="run_chain"))
             k = 3 if Q else 4
             out.append(Space(f"{mname}: chains K<=3 bodies<={k}", {"model": mname, "body_size": k, "stages": "2..3"},
                              (lambda mname=mname, k=k: self._chains(mname, k, 3 if not Q else 2)), runner="run_chain"))
@@ -329,7 +341,8 @@ class C08(Check):
     def run_chain(self, payload):
         from func_adl import EventDataset
 
-        mname, stages = payload
+        mname, stages = payload[:2]
+        with_md = len(payload) > 2
         bind.reset_type_registries()
         g, d = models.load(mname)
         gen = Gen(d, FULL + ("moreops",))
@@ -387,6 +400,17 @@ class C08(Check):
                                     "msg": f"stage {i} {op}({lam}): item_type {prob} (expected {new_item!r})"})
                 return res
             s, item = s2, new_item
+            if with_md:
+                # operators that do not touch the items must not touch the item type either
+                before_t = s.item_type
+                for step in (lambda x: x.QMetaData({"a": 1}), lambda x: x.QMetaData({"a": 1}), lambda x: x.QMetaData({}),
+                             lambda x: x.MetaData({"m": 1})):
+                    s = step(s)
+                    if s.item_type is not before_t and s.item_type != before_t:
+                        res["oc"].append("wrong-type")
+                        res["viol"].append({"kind": "item-type-changed-by-a-metadata-operator", "canon": canon,
+                                            "msg": f"after stage {i}: {before_t!r} became {s.item_type!r}"})
+                        return res
         res["oc"].append("types-ok")
         return res
 
